@@ -51,7 +51,8 @@ pub fn key_of(s: &str) -> u64 {
     h
 }
 
-/// Some(other format to load first) for half of the inputs, None = use the static table
+/// Some(other format to load first) for half of the inputs (enum side; a quarter on the lexical
+/// side), None = use the static table
 pub fn history(fi: usize, key: u64) -> Option<usize> {
     match key % 4 {
         2 => Some((fi + 1) % 3),
@@ -87,7 +88,8 @@ pub fn with_e<R>(fi: usize, key: u64, f: impl FnOnce(&EFormat<&'static str>) -> 
 /// the same for the lexical formats (values from `create_format_*()`)
 pub fn with_l<R>(fi: usize, key: u64, f: impl FnOnce(&LFormat) -> R) -> R {
     let fi = fi.min(2);
-    let Some(other) = history(fi, key) else { return f(fmts::l(fi)) };
+    // (building a lexical format costs ≈ 0.2 ms: a quarter of the inputs go through the slot)
+    let Some(other) = (if key % 8 < 4 { history(fi, key) } else { None }) else { return f(fmts::l(fi)) };
     let mut f = Some(f);
     let r = L_SLOT.with(|cell| {
         let Ok(mut guard) = cell.try_borrow_mut() else { return None };
